@@ -93,7 +93,9 @@ def rule_publish_confirm(fx, col):
                             why = 'constructed on the UNEQUAL outcome'
                 debt_ok = dop is not None and pbb in _call_bbs(b, dop, through=_try_through)
                 dom = any(b.dominates(c.bb, nbb) for c in confirm)
-                col.add('PUBLISH-CONFIRM', key, ok and ptr_src == {L1.bb} and debt_ok and dom,
+                # on the equal outcome the first read and the re-read are the same value: either may be protected
+                ptr_ok = bool(ptr_src) and ptr_src <= ({L1.bb} | {c.bb for c in confirm})
+                col.add('PUBLISH-CONFIRM', key, ok and ptr_ok and debt_ok and dom,
                         '%s; pointer from %s; debt from the publish: %s; re-read dominates: %s' % (why, sorted(b.loc(x) for x in ptr_src), debt_ok, dom), b.loc(nbb))
             elif st == 'None':
                 # only after a failed pay of this debt on this pointer
@@ -204,6 +206,13 @@ def _confirm_shape(fx, col, cx):
         n += 1
         S = sw[0]
         fn = b.fname
+        # the debt goes into the helping slot BEFORE the transaction is closed: a writer that then reads IDLE finds it
+        slot_w = [s for s in cx.summ.sites_by_body.get(b.key, ()) if s.cls == 'debt' and s.op in ('swap', 'store', 'compare_exchange')]
+        ok = bool(slot_w) and all(b.pos_dominates(b.term_pos(s.bb), b.term_pos(S.bb)) and s.bb != S.bb for s in slot_w)
+        col.add('INTENT-FIRST', '%s|slot filled before control goes idle' % fn, ok,
+                'the candidate is written into the helping slot at %s, before control is swapped to IDLE at %s' % ([s.loc for s in slot_w], S.loc), S.loc)
+        same = bool(slot_w) and all(s.root == S.root for s in slot_w)
+        col.add('INTENT-FIRST', '%s|slot of the same helping record' % fn, same, 'slot and control belong to the same helping::Slots')
         # Ok is returned only when swapped-out control == gen parameter
         for bb in range(b.n):
             if b.is_cleanup(bb):
